@@ -88,7 +88,11 @@ func verifHarnessC08() {
 	plans := make([][]*vHistOp, T)
 	for t := 0; t < T; t++ {
 		for i := 0; i < N; i++ {
-			o := &vHistOp{kind: verifChoice("kind", 3), ki: verifChoice("ki", len(kp.keys))}
+			nk := 3
+			if verifParam("onlyput") == 1 {
+				nk = 1
+			}
+			o := &vHistOp{kind: verifChoice("kind", nk), ki: verifChoice("ki", len(kp.keys))}
 			if o.kind == 0 {
 				o.val = verifBytes("val", 1)
 			}
